@@ -182,7 +182,22 @@ pub fn deinline_opt(
         })
         .collect();
 
-    for (_, function_set) in root_set_to_inline_tree.iter() {
+    // Visit the root sets, and the functions in each, in program order.  The
+    // result of the search below depends on the order of the trials: hash order
+    // differs from process to process and the order of generated names changes
+    // with the numbers in them.
+    let index_of = |f: &Vec<u8>| helper_to_index.get(f).copied().unwrap_or(usize::MAX);
+    let mut function_sets: Vec<Vec<Vec<u8>>> = root_set_to_inline_tree
+        .values()
+        .map(|function_set| {
+            let mut functions: Vec<Vec<u8>> = function_set.iter().cloned().collect();
+            functions.sort_by_key(index_of);
+            functions
+        })
+        .collect();
+    function_sets.sort_by_key(|functions| functions.iter().map(index_of).collect::<Vec<usize>>());
+
+    for function_set in function_sets.iter() {
         loop {
             let start_metric = metric;
 
